@@ -1,1 +1,127 @@
-//! Logical-value normalisation (DESIGN §1.3).
+//! Logical-value normalisation (DESIGN §1.3): results are compared as logical
+//! values, never by Debug text or Rust `==` of engine types.
+use samyama::graph::PropertyValue;
+use samyama::query::executor::record::Value;
+use std::collections::BTreeMap;
+
+#[derive(Clone, Debug, PartialEq, Eq, PartialOrd, Ord, Hash)]
+pub enum LV {
+    Null,
+    Bool(bool),
+    Int(i64),
+    /// f64 by bits (floats are compared bit-exactly; the value domains are dyadic)
+    Float(u64),
+    Str(String),
+    List(Vec<LV>),
+    Map(BTreeMap<String, LV>),
+    Node(u64),
+    Rel(u64),
+    Path(Vec<u64>, Vec<u64>),
+    /// temporal / vector / duration: kept as an opaque tagged rendering
+    Other(String),
+}
+
+impl LV {
+    pub fn f(x: f64) -> LV {
+        LV::Float(x.to_bits())
+    }
+    pub fn s(x: &str) -> LV {
+        LV::Str(x.to_string())
+    }
+    pub fn as_f64(&self) -> Option<f64> {
+        match self {
+            LV::Int(i) => Some(*i as f64),
+            LV::Float(b) => Some(f64::from_bits(*b)),
+            _ => None,
+        }
+    }
+    pub fn is_null(&self) -> bool {
+        matches!(self, LV::Null)
+    }
+    pub fn is_number(&self) -> bool {
+        matches!(self, LV::Int(_) | LV::Float(_))
+    }
+    pub fn from_pv(p: &PropertyValue) -> LV {
+        match p {
+            PropertyValue::Null => LV::Null,
+            PropertyValue::Boolean(b) => LV::Bool(*b),
+            PropertyValue::Integer(i) => LV::Int(*i),
+            PropertyValue::Float(f) => LV::Float(f.to_bits()),
+            PropertyValue::String(s) => LV::Str(s.clone()),
+            PropertyValue::Array(a) => LV::List(a.iter().map(LV::from_pv).collect()),
+            PropertyValue::Map(m) => LV::Map(m.iter().map(|(k, v)| (k.clone(), LV::from_pv(v))).collect()),
+            PropertyValue::DateTime(t) => LV::Other(format!("datetime:{t}")),
+            PropertyValue::Vector(v) => LV::Other(format!("vector:{:?}", v.iter().map(|x| x.to_bits()).collect::<Vec<_>>())),
+            PropertyValue::Duration { months, days, seconds, nanos } => LV::Other(format!("duration:{months}:{days}:{seconds}:{nanos}")),
+        }
+    }
+    pub fn to_pv(&self) -> PropertyValue {
+        match self {
+            LV::Null => PropertyValue::Null,
+            LV::Bool(b) => PropertyValue::Boolean(*b),
+            LV::Int(i) => PropertyValue::Integer(*i),
+            LV::Float(b) => PropertyValue::Float(f64::from_bits(*b)),
+            LV::Str(s) => PropertyValue::String(s.clone()),
+            LV::List(l) => PropertyValue::Array(l.iter().map(|x| x.to_pv()).collect()),
+            LV::Map(m) => PropertyValue::Map(m.iter().map(|(k, v)| (k.clone(), v.to_pv())).collect()),
+            LV::Node(_) | LV::Rel(_) | LV::Path(..) | LV::Other(_) => PropertyValue::Null,
+        }
+    }
+    pub fn from_value(v: &Value) -> LV {
+        match v {
+            Value::Null => LV::Null,
+            Value::Node(id, _) | Value::NodeRef(id) => LV::Node(id.as_u64()),
+            Value::Edge(id, _) | Value::EdgeRef(id, ..) => LV::Rel(id.as_u64()),
+            Value::Property(p) => LV::from_pv(p),
+            Value::Path { nodes, edges } => LV::Path(nodes.iter().map(|n| n.as_u64()).collect(), edges.iter().map(|e| e.as_u64()).collect()),
+            Value::List(l) => LV::List(l.iter().map(LV::from_value).collect()),
+            Value::Map(m) => LV::Map(m.iter().map(|(k, v)| (k.clone(), LV::from_value(v))).collect()),
+        }
+    }
+    /// Cypher literal text for this value (only for literal-able values).
+    pub fn lit(&self) -> String {
+        match self {
+            LV::Null => "null".into(),
+            LV::Bool(b) => format!("{b}"),
+            LV::Int(i) => format!("{i}"),
+            LV::Float(b) => {
+                let f = f64::from_bits(*b);
+                if f.fract() == 0.0 && f.is_finite() {
+                    format!("{f:.1}")
+                } else {
+                    format!("{f}")
+                }
+            }
+            LV::Str(s) => format!("'{}'", s.replace('\\', "\\\\").replace('\'', "\\'")),
+            LV::List(l) => format!("[{}]", l.iter().map(|x| x.lit()).collect::<Vec<_>>().join(", ")),
+            LV::Map(m) => format!("{{{}}}", m.iter().map(|(k, v)| format!("{k}: {}", v.lit())).collect::<Vec<_>>().join(", ")),
+            _ => "null".into(),
+        }
+    }
+    /// Map entity ids through `f` (used to translate engine ids to reference ids).
+    pub fn map_ids(&self, nf: &dyn Fn(u64) -> u64, rf: &dyn Fn(u64) -> u64) -> LV {
+        match self {
+            LV::Node(n) => LV::Node(nf(*n)),
+            LV::Rel(r) => LV::Rel(rf(*r)),
+            LV::Path(ns, rs) => LV::Path(ns.iter().map(|n| nf(*n)).collect(), rs.iter().map(|r| rf(*r)).collect()),
+            LV::List(l) => LV::List(l.iter().map(|x| x.map_ids(nf, rf)).collect()),
+            LV::Map(m) => LV::Map(m.iter().map(|(k, v)| (k.clone(), v.map_ids(nf, rf))).collect()),
+            o => o.clone(),
+        }
+    }
+}
+
+/// Rows of a RecordBatch as logical values, by column position.
+pub fn rows_of(batch: &samyama::query::executor::record::RecordBatch) -> Vec<Vec<LV>> {
+    batch
+        .records
+        .iter()
+        .map(|r| batch.columns.iter().map(|c| r.get(c).map(LV::from_value).unwrap_or(LV::Null)).collect())
+        .collect()
+}
+
+pub fn bag<T: Ord + Clone>(v: &[T]) -> Vec<T> {
+    let mut v = v.to_vec();
+    v.sort();
+    v
+}
